@@ -3,11 +3,12 @@
 # applies the patch to a scratch copy of /repo/src (outside /repo and /verif), runs the check against it, removes the copy.
 set -u
 patch=$(realpath "$1"); id=$2; shift 2
+here=$(cd "$(dirname "$(realpath "$0")")/.." && pwd)
 d=$(mktemp -d /tmp/mut_XXXXXX)
 mkdir -p $d/src
 rsync -a --exclude '__pycache__' /repo/src/ $d/src/
 ( cd $d && git init -q . >/dev/null 2>&1; patch -p1 -s < "$patch" ) || { echo "PATCH FAILED"; rm -rf $d; exit 3; }
-cd /verif
+cd "$here"
 VERIF_EVIDENCE_DIR=$d/ev VERIF_REPO=$d ./vcheck $id "$@" | tail -${MUT_TAIL:-12}
 rc=${PIPESTATUS[0]}
 rm -rf $d
